@@ -150,6 +150,10 @@ def gen_fit_case(rng, i, allow_plateau=False):
     fixed-varied choices and model mismatch"""
     mk = rng.choice(MODELS[:4] if rng.random() < 0.9 else MODELS)
     truth = truth_params(mk, rng)
+    far = rng.random() < 0.2
+    if far:
+        # contact point far from zero (no tip-offset correction applied)
+        truth["contact_point"].set(value=rng.choice([2e-6, -1.5e-6, 8e-7]))
     cp = truth["contact_point"].value
     noise = rng.choice([0.0, 0.0, 1e-11, 5e-11])
     n_app = rng.choice([40, 120, 300])
@@ -201,6 +205,8 @@ def gen_fit_case(rng, i, allow_plateau=False):
                                     [-1e-8, 1e-8], [-4e-9, 0], [-2.5e-7, 1e-7]])
     kw["weight_cp"] = rng.choice([0, False, 1e-7, 5e-7, 2e-6])
     kw["gcf_k"] = rng.choice([1.0, 1.0, 0.5, 0.75, 2.0, 0.3183098861837907])
+    if far and rng.random() < 0.7:
+        kw["gcf_k"] = rng.choice([0.5, 2.0, 0.3183098861837907])
     p0 = start_params(fit_mk, truth_params(fit_mk, rng, cp=cp) if fit_mk != mk else truth, rng,
                       rel=rng.choice([0.0, 0.05, 0.2]))
     for name in p0:
@@ -217,6 +223,9 @@ def gen_fit_case(rng, i, allow_plateau=False):
         p0["baseline"].set(expr="E*1e-15")
     elif tog < 0.58 and "E" in p0:
         p0["E"].set(vary=False)
+    elif tog < 0.7 or (far and tog < 0.9):
+        # finite limits on the varied contact point (given in measured units)
+        p0["contact_point"].set(min=cp - 1.5e-6, max=cp + 1.5e-6)
     kw["params_initial"] = p0
     if rng.random() < 0.12:
         kw["method"] = rng.choice(["nelder", "least_squares"])
@@ -225,5 +234,6 @@ def gen_fit_case(rng, i, allow_plateau=False):
             "weight_cp": float(kw["weight_cp"]), "gcf_k": kw["gcf_k"],
             "varied": [n for n in p0 if p0[n].vary and not p0[n].expr],
             "expr": [n for n in p0 if p0[n].expr], "method": kw.get("method", "leastsq"),
+            "cp_true": cp, "cp_limits": [float(p0["contact_point"].min), float(p0["contact_point"].max)],
             "plateau": bool(kw.get("optimal_fit_edelta", False)), "seed_index": i}
     return idnt, kw, truth, meta
